@@ -71,6 +71,7 @@ type SpecDef struct {
 	Name   string
 	Params []string
 	Body   *Expr
+	Opaque bool // evaluated as an uninterpreted predicate over its arguments; reveal(NAME(args)) unfolds it
 }
 
 type ContractSet struct {
@@ -146,7 +147,11 @@ func (cs *ContractSet) line(cur **Contract, text, file string, ln int) error {
 		word, rest = text[:i], strings.TrimSpace(text[i+1:])
 	}
 	mk := func(kind, body string) (*Clause, error) {
-		m := reHead.FindStringSubmatch(kind + " " + body)
+		sep := " "
+		if strings.HasPrefix(body, "[") {
+			sep = ""
+		}
+		m := reHead.FindStringSubmatch(kind + sep + body)
 		if m == nil {
 			return nil, fmt.Errorf("malformed clause %q", text)
 		}
@@ -162,7 +167,7 @@ func (cs *ContractSet) line(cur **Contract, text, file string, ln int) error {
 		return &Clause{Kind: kind, Label: m[3], Tags: splitTags(m[2]), E: e, Src: m[4], File: file, Line: ln}, nil
 	}
 	switch {
-	case word == "spec":
+	case word == "spec" || word == "opaque":
 		m := regexp.MustCompile(`^([A-Za-z_][A-Za-z0-9_]*)\(([^)]*)\)\s*=\s*(.*)$`).FindStringSubmatch(rest)
 		if m == nil {
 			return fmt.Errorf("malformed spec %q", rest)
@@ -181,7 +186,7 @@ func (cs *ContractSet) line(cur **Contract, text, file string, ln int) error {
 		if _, dup := cs.Specs[m[1]]; dup {
 			return fmt.Errorf("duplicate spec %s", m[1])
 		}
-		cs.Specs[m[1]] = &SpecDef{Name: m[1], Params: ps, Body: e}
+		cs.Specs[m[1]] = &SpecDef{Name: m[1], Params: ps, Body: e, Opaque: word == "opaque"}
 		return nil
 	case word == "func":
 		if _, dup := cs.Funcs[rest]; dup {
